@@ -766,6 +766,12 @@ def ite(c, a, b):
         return a if _CTX.decide(ce) else b
     if isinstance(a, SymFP) or isinstance(b, SymFP):
         return SymFP(z3.If(ce, fp_const(a), fp_const(b)))
+    if not isinstance(a, Sym) and not isinstance(b, Sym) and type(a) is type(b) and a == b and \
+            (not isinstance(a, float) or math.copysign(1.0, a) == math.copysign(1.0, b)):
+        return a
+    if _CTX is not None and _CTX.fp_mode and isinstance(a, (int, float)) and isinstance(b, (int, float)) \
+            and not isinstance(a, bool) and not isinstance(b, bool):
+        return SymFP(z3.If(ce, fp_const(a), fp_const(b)))
     if isinstance(a, SymBits) or isinstance(b, SymBits):
         raise Unsupported("ite over BITS payloads")
     (ea, ka), (eb, kb) = lift(a), lift(b)
@@ -959,6 +965,7 @@ class PathCtx:
         self.logs = []              # (argument term, value term) of ln applications
         self.sqrts = []             # (argument term, value term) of sqrt applications
         self.roundings = []         # (type tag, exact term, rounded value) of narrow-float operations
+        self.fp_mode = False        # set once a binary64 input is declared: merged concrete floats stay FP
         self.norm_hints = []        # preferred extra constraints for witnesses / counterexamples
         self.log_range_obligation = None   # name of the obligation guarding arguments of ln (finiteness configs)
 
@@ -994,6 +1001,7 @@ class PathCtx:
     def fp(self, name):
         v = z3.FP(name, FP64)
         self.inputs[name] = v
+        self.fp_mode = True
         return SymFP(v)
 
     def fresh_real(self, hint='t'):
